@@ -7,17 +7,11 @@ package provider
 //@ fieldfunc DecodeProvider.newDecoder
 //@ ensures iff(result1 == nil, result0 != nil)
 
-// Acquire hands out what the provider queued, and reports the end of ammo when the queue is closed; Release returns to the pool.
+// Acquire hands out what the provider queued, and reports the end of ammo when the queue is closed.
 //@ func (p *AmmoQueue) Acquire
 //@ props C03 C08
 //@ nilsafe
 //@ ensures [queued-ammo-or-end-of-ammo] result0 == result_of(<-p.OutQueue, 0) && result1 == result_of(<-p.OutQueue, 1)
-
-//@ func (p *AmmoQueue) Release
-//@ props C03
-//@ nilsafe
-//@ env pooltype(p.InputPool, box(0))
-//@ modifies nothing
 
 // The generic decoding provider: at most `limit` ammo are queued; end of data, the limit and cancellation end the run
 // without error; a decode failure fails it; the queue is closed on every exit.
